@@ -2958,6 +2958,30 @@ def unit_factor(repo, out):
     _reuse('C11', 'factor_once')(repo, out)
 
 
+@rule('C01.order', floor=3)
+def order_(repo, out):
+    """compute_totals: the substitution-colouring subtractions (which combine entries of different rows /
+    columns) are completed before any in-place unit or driver scaling of J (same clause as C03.order)."""
+    _reuse('C03', 'order')(repo, out)
+
+
+@rule('C01.transfer-scaling', floor=10)
+def transfer_scaling(repo, out):
+    """scale_to_norm / scale_to_phys are only called from the two scaling contexts and Group._transfer, and
+    every call is undone by its inverse with the same `mode` in the same branch: a reverse transfer that
+    restores the input vector with the forward convention leaves a squared unit / ref factor in d_inputs
+    (same clause as C08.who)."""
+    _reuse('C08', 'who')(repo, out)
+
+
+@rule('C01.hook-state', floor=30)
+def hook_state(repo, out):
+    """Every user hook of a component (compute_partials, linearize, apply_linear, compute_jacvec_product,
+    solve_linear, ...) runs with every vector it reads or writes in the physical state -- including the
+    nonlinear outputs the linearization point is taken from (same clause as C08.enclose)."""
+    _reuse('C08', 'enclose')(repo, out)
+
+
 # =========================================================================== self-test
 _SOLVE_LOOP_TAIL = (
     "                            jac_setter(inds, mode, imeta)\n\n"
@@ -3144,6 +3168,14 @@ selftest(
            "            of_src_names = [driver._responses[n]['source'] for n in driver_ordered_nl_resp_names]",
            "            of_src_names = [m['source'] for n, m in driver._responses.items()\n"
            "                            if n in driver_ordered_nl_resp_names]", 'C01.driver-order', nth=0),
+    Mutant('subtractions-after-scaling', TJ,
+           "                if self.simul_coloring is not None and self.simul_coloring._subtractions:\n                    self.simul_coloring._apply_subtractions(self.J)\n\n                self._apply_unit_scaling(self.J_dict)\n\n                # Driver scaling.\n                if self.has_scaling:\n                    self._driver._autoscaler.apply_jac_scaling(self.J_dict)\n\n", "                self._apply_unit_scaling(self.J_dict)\n\n                # Driver scaling.\n                if self.has_scaling:\n                    self._driver._autoscaler.apply_jac_scaling(self.J_dict)\n\n                if self.simul_coloring is not None and self.simul_coloring._subtractions:\n                    self.simul_coloring._apply_subtractions(self.J)\n\n", 'C01.order'),
+    Mutant('rev-transfer-restored-fwd', GROUP, "                    vec_inputs.scale_to_phys(mode='rev')",
+           "                    vec_inputs.scale_to_phys()", 'C01.transfer-scaling'),
+    Mutant('apply-linear-outputs-left-scaled', 'openmdao/core/implicitcomponent.py',
+           "            with self._unscaled_context(\n"
+           "                    outputs=[self._outputs, d_outputs], residuals=[d_residuals]):",
+           "            with self._unscaled_context(outputs=[d_outputs], residuals=[d_residuals]):", 'C01.hook-state'),
     Mutant('rhs-cache-norm-ratio', 'openmdao/solvers/linear/linear_rhs_checker.py',
            "scaler = dot_product / rhs_cache_norm**2", "scaler = rhs_norm / rhs_cache_norm", 'C01.rhs-cache'),
     Mutant('csc-factor-after-accumulate', 'openmdao/matrices/csc_matrix.py',
@@ -3407,6 +3439,19 @@ selftest(
          "            of_src_names = [driver._responses[n]['source'] for n in driver_ordered_nl_resp_names]",
          "            of_src_names = [driver._responses[rn]['source'] for rn in list(driver_ordered_nl_resp_names)]",
          nth='all'),
+    Twin('twin-scalings-commuted', TJ, "                self._apply_unit_scaling(self.J_dict)\n\n                # Driver scaling.\n                if self.has_scaling:\n                    self._driver._autoscaler.apply_jac_scaling(self.J_dict)\n\n",
+         "                # Driver scaling.\n                if self.has_scaling:\n"
+         "                    self._driver._autoscaler.apply_jac_scaling(self.J_dict)\n\n"
+         "                self._apply_unit_scaling(self.J_dict)\n\n"),
+    Twin('twin-transfer-mode-positional', GROUP, "                    vec_inputs.scale_to_phys(mode='rev')",
+         "                    vec_inputs.scale_to_phys('rev')",
+         also=[(GROUP, "                    vec_inputs.scale_to_norm(mode='rev')",
+                "                    vec_inputs.scale_to_norm('rev')")]),
+    Twin('twin-apply-linear-context-reordered', 'openmdao/core/implicitcomponent.py',
+         "            with self._unscaled_context(\n"
+         "                    outputs=[self._outputs, d_outputs], residuals=[d_residuals]):",
+         "            with self._unscaled_context(residuals=[d_residuals],\n"
+         "                                        outputs=[d_outputs, self._outputs]):"),
     Twin('twin-rhs-cache-scale-rewritten', 'openmdao/solvers/linear/linear_rhs_checker.py',
          "scaler = dot_product / rhs_cache_norm**2", "scaler = dot_product / (rhs_cache_norm * rhs_cache_norm)"),
     Twin('twin-solve-in-physical-vector-names', DIRECT,
